@@ -22,6 +22,7 @@ import (
 
 	"github.com/aergoio/aergo-lib/db"
 	"github.com/aergoio/aergo/v2/config"
+	"github.com/aergoio/aergo/v2/internal/enc/proto"
 	"github.com/aergoio/aergo/v2/internal/verifkit"
 	"github.com/aergoio/aergo/v2/types"
 )
@@ -160,6 +161,7 @@ func TestVerifHardfork(t *testing.T) {
 	}
 	c19VersionTables(&in, maps, vio)
 	c19ReplayStarts(&in, maps, vio)
+	c19ReplayDerive(&in, maps, vio)
 	c19GenesisRoundTrip(vio)
 	if err := c19RandomRuns(&in, vio); err != nil {
 		t.Fatal(err)
@@ -338,6 +340,119 @@ func c19ReplayStart(tr c19Trans, ti int, m []uint64, mi int, vio *c19Violator) {
 	}
 	if !c19Eq(after, want) {
 		vio.diverge(fmt.Sprintf("record after start (accepted=%v): differs from the model", ok))
+	}
+}
+
+// c19ParentState is what must not change when the header info of a child is derived from a block held in memory.
+type c19ParentState struct {
+	bytes   []byte // the whole block, encoded
+	id      []byte // the identifier recomputed from the header alone
+	cidVer  int32
+	cidJSON string
+}
+
+func c19StateOf(b *types.Block) c19ParentState {
+	enc, _ := proto.Encode(b)
+	st := c19ParentState{bytes: enc, id: (&types.Block{Header: b.GetHeader()}).BlockHash(), cidVer: types.DecodeChainIdVersion(b.GetHeader().GetChainID())}
+	cid := types.NewChainID()
+	if err := cid.Read(b.GetHeader().GetChainID()); err != nil {
+		st.cidJSON = "unreadable: " + err.Error()
+	} else {
+		st.cidJSON = cid.ToJSON()
+	}
+	return st
+}
+
+func (a c19ParentState) cid() []byte {
+	var b types.Block
+	if err := proto.Decode(a.bytes, &b); err != nil {
+		return nil
+	}
+	return b.GetHeader().GetChainID()
+}
+
+func (a c19ParentState) diff(b c19ParentState) string {
+	switch {
+	case a.cidVer != b.cidVer:
+		return fmt.Sprintf("chain id version in its header %d -> %d", a.cidVer, b.cidVer)
+	case a.cidJSON != b.cidJSON:
+		return "chain id read back from its header: " + a.cidJSON + " -> " + b.cidJSON
+	case !bytes.Equal(a.id, b.id):
+		return "its header hashes to another identifier"
+	case !bytes.Equal(a.bytes, b.bytes):
+		return "its encoding changed"
+	}
+	return ""
+}
+
+// a parent block at height no whose chain id carries version ver, with its identifier computed and cached
+func c19ParentBlock(no uint64, ver int32, salt int) *types.Block {
+	cid, err := (&types.ChainID{Version: ver, PublicNet: salt%2 == 0, Magic: "verif.chain", Consensus: "dpos"}).Bytes()
+	if err != nil {
+		panic(err)
+	}
+	prev := make([]byte, 32)
+	prev[0] = byte(salt)
+	b := types.NewBlock(&types.BlockHeaderInfo{No: no, Ts: int64(salt) + 1, PrevBlockHash: prev, ChainId: cid, ForkVersion: ver}, prev, nil, nil, nil, nil)
+	b.BlockID()
+	return b
+}
+
+// every AddBlock transition of the model (every configuration, every height, so every version step incl. several versions
+// at once and the step away from the genesis version): the header info of the child is derived from a real parent block
+// the way the block factories (NewBlockHeaderInfoFromPrevBlock) and the mempool (MakeChainId on the parent's header
+// field, for every new best block) do it; the parent must be left as it was (ParentUnchangedByChild).
+func c19ReplayDerive(in *c19HfInput, maps [][]uint64, vio *c19Violator) {
+	for ti, tr := range in.Trans {
+		if tr.Act != "AddBlock" {
+			continue
+		}
+		for mi, m := range maps {
+			c := c19Cfg(tr.Cfg, m)
+			childNo := m[tr.No] // the child sits exactly on the mapped height (a fork height of the configuration or not)
+			if childNo == 0 {
+				continue
+			}
+			pver := int32(0) // the genesis block carries the version of the genesis file
+			if tr.Best > 0 {
+				pver = c.Version(childNo - 1)
+			}
+			boundary := pver != c.Version(childNo)
+			for _, how := range []string{"NewBlockHeaderInfoFromPrevBlock", "MakeChainId(parent header field)"} {
+				parent := c19ParentBlock(childNo-1, pver, ti+mi)
+				before := c19StateOf(parent)
+				var childCid []byte
+				if how == "NewBlockHeaderInfoFromPrevBlock" {
+					bi := types.NewBlockHeaderInfoFromPrevBlock(parent, int64(ti)+7, c)
+					childCid = bi.ChainId
+					if bi.No != childNo || bi.ForkVersion != c.Version(childNo) || !bytes.Equal(bi.PrevBlockHash, before.id) {
+						vio.violate(map[string]interface{}{"kind": "child-header-info", "class": "fields"}, map[string]interface{}{"config": c19CfgList(c), "child": childNo},
+							"header info derived for block %d: no=%d version=%d prev=%x", childNo, bi.No, bi.ForkVersion, bi.PrevBlockHash)
+					}
+				} else {
+					childCid = types.MakeChainId(parent.GetHeader().GetChainID(), c.Version(childNo))
+				}
+				vio.res.Count(fmt.Sprintf("derive|%d|%d|%s", ti, mi, how))
+				after := c19StateOf(parent)
+				if d := before.diff(after); d != "" {
+					vio.violate(map[string]interface{}{"kind": "input-modified", "function": "MakeChainId", "object": "parent-block", "boundary": boundary},
+						map[string]interface{}{"config": c19CfgList(c), "parent_height": childNo - 1, "parent_version": pver, "child_version": c.Version(childNo), "via": how, "difference": d},
+						"deriving the header info of block %d (version %d, config %v) through %s changed the parent block held in memory: %s",
+						childNo, c.Version(childNo), c19CfgList(c), how, d)
+				}
+				// the child's chain id: the version of its height, everything else as in the parent's
+				if types.DecodeChainIdVersion(childCid) != c.Version(childNo) || !types.ChainIdEqualWithoutVersion(childCid, before.cid()) {
+					vio.violate(map[string]interface{}{"kind": "child-header-info", "class": "chainid"}, map[string]interface{}{"config": c19CfgList(c), "child": childNo, "via": how},
+						"chain id derived for block %d has version %d (want %d) or differs from the parent's beyond the version", childNo, types.DecodeChainIdVersion(childCid), c.Version(childNo))
+				}
+				if c.Version(childNo) != tr.Ver {
+					vio.diverge(fmt.Sprintf("Version(cfg, no) at a derived child: model %d, code %d", tr.Ver, c.Version(childNo)))
+				}
+				if boundary && mi == 0 && ti%40 == 0 {
+					vio.res.Sample(map[string]interface{}{"derive": how, "config": c19CfgList(c), "parent_version": pver, "child_version": c.Version(childNo), "parent_unchanged": before.diff(after) == ""})
+				}
+			}
+		}
 	}
 }
 
@@ -566,7 +681,14 @@ func c19RandomRuns(in *c19HfInput, vio *c19Violator) error {
 			}
 			// append a block the way the block factory does: chain id version from the configuration, receipts stored in the block's format
 			prev, _ := cdb.GetBestBlock()
+			prevBefore := c19StateOf(prev)
 			bi := types.NewBlockHeaderInfoFromPrevBlock(prev, int64(step+1), cs.cfg.Hardfork)
+			prevAfter := c19StateOf(prev)
+			if d := prevBefore.diff(prevAfter); d != "" {
+				vio.violate(map[string]interface{}{"kind": "input-modified", "function": "MakeChainId", "object": "parent-block", "via": "run"},
+					map[string]interface{}{"run": run, "step": step, "parent": prev.BlockNo(), "difference": d, "config": c19CfgList(cs.cfg.Hardfork)},
+					"deriving the header info of block %d changed the best block held in memory: %s", prev.BlockNo()+1, d)
+			}
 			no := bi.No
 			receipts := &types.Receipts{}
 			receipts.SetHardFork(cs.cfg.Hardfork, no)
@@ -595,7 +717,8 @@ func c19RandomRuns(in *c19HfInput, vio *c19Violator) error {
 					"block %d got version %d, its parent has version %d", no, w.ver, written[no-1].ver)
 			}
 			written[no] = w
-			emit(map[string]interface{}{"ev": "AddBlock", "no": no, "ver": w.ver, "fmt": format})
+			emit(map[string]interface{}{"ev": "AddBlock", "no": no, "ver": w.ver, "fmt": format,
+				"pver": prevAfter.cidVer, "pid": bytes.Equal(prevAfter.id, prev.BlockHash())})
 		}
 		if cs != nil {
 			emit(map[string]interface{}{"ev": "Stop"})
